@@ -10,9 +10,12 @@ for ln in (ROOT / "properties.jsonl").read_text().splitlines():
 
 # claimed properties -> technique (the level text and note come from the props module itself)
 TECHNIQUE = {
+    "C03": "Lean 4 proof (OR-factoring, squash/split, filter crossing per operator category, DNF + Kleene reader semantics, join-side legality; all trees/valuations) + regenerated flag table decided by the kernel + exact correspondence of the predicate/merge functions",
+    "C04": "Lean 4 proof (labels/well-formedness/values per projection rule for any dependents list) + exact correspondence of every modelled _simplify_up/_simplify_down + regenerated flag tables",
     "C05": "Lean 4 proof (confluence of all topological orders / multi-worker schedules over key-indexed graphs) + proven checker on real graphs; purity sampled",
     "C07": "Lean 4 proof (declared labels = computed labels for label-level operator chains, every partition) + labels correspondence; dtype kinds compared end to end",
     "C09": "Lean 4 proof (LayerOK layers merge into a closed, acyclic graph; checker soundness) + exact graph correspondence + proven checker on real graphs",
+    "C10": "Lean 4 proof (split_every independence of TreeReduce, one specification for all shuffle implementations) + graph correspondence + knob-grid search",
     "C12": "Lean 4 proof (run(layer)=sem for simple/staged/disk shuffle, all sizes) + exact graph correspondence",
     "C17": "Lean 4 proof (alias layer and cut theorems over key-indexed graphs) + exact FromGraph graph correspondence + cut-point search",
     "C18": "Lean 4 proof (fused-bucket partition, reader filter instance of C03, overwrite-guard prefix theorem) + correspondence of buckets/divisions/guard + parquet write/read-back search",
